@@ -1,3 +1,4 @@
+import RavenModel.Model.Plan
 import RavenModel.Model.MailInv
 import RavenModel.Model.MailMono
 /-! # C03 — UIDs are unique, ascending and never reused; UIDNEXT tells the truth
@@ -110,5 +111,24 @@ example : ((reach 1 [.add (b!"INBOX") 1 [b!"\\Deleted"], .add (b!"INBOX") 2 []])
 example : ((reach 1 [.add (b!"INBOX") 1 [], .add (b!"INBOX") 2 [], .copy (b!"INBOX") [1, 2] (b!"Sent"),
     .store (b!"INBOX") [b!"Junk"] .add [1], .rename (b!"INBOX") (b!"Old") 2, .add (b!"INBOX") 3 []]).log.map (fun e => (e.inc, e.uid)))
     = [(0, 3), (5, 2), (4, 1), (1, 2), (1, 1), (0, 2), (0, 1)] := by decide
+
+/-! ## the statements behind the machine's `add` and `copy` (plan regenerated from /repo on every run) -/
+
+/-- C03.7  a UID is allocated by **one** statement (`UPDATE mailboxes … RETURNING`) directly followed by the insertion of the
+link: `AddMessageToMailboxPerUser` issues these two statements and nothing else — no separate read of the counter, no
+`MAX(uid)`. This is the `add` step of `Model/Mail` and the allocation step of `Durable`. -/
+theorem plan_uid_allocation :
+    Plan.sqlOnly (Plan.trace (b!"db.AddMessageToMailboxPerUser")) = [(b!"sql UPDATE mailboxes RETURNING"), (b!"sql INSERT message_mailbox")] := by
+  decide
+
+/-- C03.7'  COPY and UID COPY take the new UIDs from the destination's counter inside one transaction (read the counter,
+insert the links, write the counter back), never from `MAX(uid)`. -/
+theorem plan_copy_from_counter :
+    [(b!"message.HandleCopy"), (b!"uid.handleUIDCopy")].all (fun op =>
+      let tx := Plan.inTx (Plan.trace op)
+      Plan.free (b!"MAX(uid)") tx &&
+      Plan.before (Plan.idx (b!"sql SELECT mailboxes") tx) (Plan.idx (b!"sql INSERT message_mailbox") tx) &&
+      Plan.before (Plan.idx (b!"sql INSERT message_mailbox") tx) (Plan.idx (b!"sql UPDATE mailboxes") tx)) = true := by
+  decide
 
 end Raven.Props.C03
